@@ -2,6 +2,7 @@ package main
 
 import (
 	"fmt"
+	"math/big"
 	"time"
 
 	"go.sia.tech/core/consensus"
@@ -136,6 +137,43 @@ func directed(b *harness.B) {
 						map[string]any{"prev": []string{g.String(), b1.Timestamp.String()}, "header_timestamp": time.Unix(g.Unix()+200*year, 0).String()})
 				}
 			}
+		}
+	}
+	// (4) a network of very low difficulty (InitialTarget 0x90.., difficulty 1): at the v2 allow height the target is
+	// re-derived as floor(2^256 / Difficulty) from a difficulty that is itself a floor; below a difficulty of 250 the
+	// two floors dominate the 0.4 % clamp.
+	{
+		n := directedNet(10 * time.Minute)
+		n.InitialTarget = types.BlockID{0x90}
+		n.HardforkOak.Height, n.HardforkOak.FixHeight = 0, 0
+		n.HardforkASIC.Height, n.HardforkASIC.NonceFactor, n.HardforkASIC.OakTarget = 0, 1, n.InitialTarget
+		n.HardforkV2.AllowHeight, n.HardforkV2.RequireHeight, n.HardforkV2.FinalCutHeight = 5, 100, 1000
+		g := n.HardforkOak.GenesisTimestamp
+		s := consensus.ApplyHeader(n.GenesisState(), types.BlockHeader{Timestamp: g}, time.Time{})
+		toInt := func(t types.BlockID) *big.Int { return new(big.Int).SetBytes(t[:]) }
+		for s.Index.Height < 8 {
+			bh, ok := mineHeader(s, g.Add(time.Duration(s.Index.Height+1)*n.BlockInterval))
+			if !ok {
+				b.Inconclusive("directed low-difficulty history: no valid header found")
+				break
+			}
+			next, p := applyGuarded(s, bh, g)
+			if p != nil {
+				b.Inconclusive(fmt.Sprintf("directed low-difficulty history: ApplyHeader panicked: %v", p))
+				break
+			}
+			b.Eval(1)
+			b.Count("directed_low_difficulty_steps", 1)
+			// required work ~ 2^256/target: its change factor is old target / new target
+			oldT, newT := new(big.Float).SetInt(toInt(s.PoWTarget())), new(big.Float).SetInt(toInt(next.PoWTarget()))
+			ratio, _ := new(big.Float).Quo(newT, oldT).Float64()
+			if ratio > 1.0041 || ratio < 1/1.0041 {
+				b.Violate("C13/clamp/v2-transition/low-difficulty-network/target-outside-0.4-percent",
+					fmt.Sprintf("on schedule, the proof-of-work target moves by a factor of %.3f in the block at height %d (v2 allow height %d) of a network with InitialTarget 0x90..: recorded difficulty %v -> %v", ratio, next.Index.Height, n.HardforkV2.AllowHeight, s.Difficulty, next.Difficulty),
+					map[string]any{"height": next.Index.Height, "factor": ratio})
+				break
+			}
+			s = next
 		}
 	}
 }
